@@ -31,7 +31,7 @@ if [ ! -x bin/instr ] || [ -n "$(find cmd/instr -newer bin/instr -name '*.go' 2>
   go build -o bin/instr ./cmd/instr >&2
 fi
 
-if [ ! -x "$B/worker" ] || [ ! -x "$B/worker-plain" ]; then
+if [ ! -x "$B/worker" ] || { [ ! -x "$B/worker-plain" ] && [ "${VERIF_SKIP_PLAIN:-0}" != 1 ]; }; then
   rm -rf "$B"; mkdir -p "$B"
   if ! ./bin/instr -repo "$REPO" -out "$B" >"$B/instr.log" 2>&1; then
     echo "ENGINE-ERROR instrumentation failed (does /repo compile?):" >&2; cat "$B/instr.log" >&2; rm -rf "$B"; exit 2
@@ -39,7 +39,7 @@ if [ ! -x "$B/worker" ] || [ ! -x "$B/worker-plain" ]; then
   if ! go build $MODFLAG -tags verif -overlay "$B/overlay.json" -ldflags "-X verif/engine/core.Instrumented=1" -o "$B/worker" ./cmd/worker >"$B/build.log" 2>&1; then
     echo "ENGINE-ERROR instrumented build failed:" >&2; cat "$B/build.log" >&2; rm -rf "$B"; exit 2
   fi
-  if ! go build $MODFLAG -tags verif -o "$B/worker-plain" ./cmd/worker >"$B/build-plain.log" 2>&1; then
+  if [ "${VERIF_SKIP_PLAIN:-0}" != 1 ] && ! go build $MODFLAG -tags verif -o "$B/worker-plain" ./cmd/worker >"$B/build-plain.log" 2>&1; then
     echo "ENGINE-ERROR plain build failed:" >&2; cat "$B/build-plain.log" >&2; rm -rf "$B"; exit 2
   fi
 fi
@@ -49,9 +49,11 @@ if [ "${VERIF_NEED_RACE:-0}" = 1 ] && [ ! -x "$B/worker-race" ]; then
   fi
 fi
 # drop superseded builds (only builds of /repo itself are pruned/prune)
+# (builds younger than three hours may belong to a mutation run on a scratch checkout that is still going on)
 [ "$REPO" = "/repo" ] && for d in "$VERIF"/.build/*/; do
   d=${d%/}
   [ "$d" = "$B" ] && continue
+  [ -n "$(find "$d" -maxdepth 0 -mmin -180 2>/dev/null)" ] && continue
   rm -rf "$d"
 done
 echo "$B"
